@@ -98,7 +98,7 @@ def showVerdict : Verdict → String
   | .ok => "ok" | .errNext => "err:next" | .errBlockID => "err:blockid" | .errBlock => "err:block"
   | .errIDMismatch => "err:idmismatch" | .errLC => "err:lc" | .errUntrusted => "err:untrusted"
   | .errHeight => "err:height" | .errParams => "err:params" | .errMeta => "err:meta"
-  | .errHeightMismatch => "err:height-mismatch" | .errTxMismatch => "err:tx-mismatch" | .errHashMismatch => "err:hash-mismatch"
+  | .errRequest => "err:request" | .errHeightMismatch => "err:height-mismatch" | .errTxMismatch => "err:tx-mismatch" | .errHashMismatch => "err:hash-mismatch"
   | .errPage => "err:page" | .errCode => "err:code" | .errKey => "err:key"
   | .errNoOps => "err:noops" | .errKeyPath => "err:keypath" | .errProof => "err:proof"
   | .errProofDataHash => "err:proof-datahash" | .errProofIndex => "err:proof-index"
@@ -192,15 +192,21 @@ def step (s : St) (toks : List String) : St × String :=
     match kind with
     | "block" | "blockbyhash" =>
       if isErr then (s, "err:next") else
-      match parseBlockRes t with
-      | some res =>
-        let (v, lc') := verifyBlock Hs s.lc res
+      let req? : Option BlockReq :=
+        if kind = "block" then ((kv t "req").bind optInt).map BlockReq.height
+        else ((kv t "req").bind ofHex).map BlockReq.hash
+      match parseBlockRes t, req? with
+      | some res, some req =>
+        let (v, lc') := verifyBlock Hs s.lc req res
         ({ s with lc := lc' }, showVerdict v)
-      | none => (s, "bad-op")
+      | _, _ => (s, "bad-op")
     | "bcinfo" =>
       if isErr then ({ s with metas := [] }, "err:next") else
-      let (v, lc') := verifyBlockchainInfo Hs s.lc s.metas
-      ({ s with lc := lc', metas := [] }, showVerdict v)
+      match (kv t "min").bind String.toInt?, (kv t "max").bind String.toInt? with
+      | some mn, some mx =>
+        let (v, lc') := verifyBlockchainInfo Hs s.lc mn mx s.metas
+        ({ s with lc := lc', metas := [] }, showVerdict v)
+      | _, _ => ({ s with metas := [] }, "bad-op")
     | "commit" =>
       match (kv t "req").bind optInt with
       | some req =>
@@ -253,11 +259,14 @@ def step (s : St) (toks : List String) : St × String :=
       | _, _, _, _, _, _, _ => (s, "bad-op")
     | "cparams" =>
       if isErr then (s, "err:next") else
+      match (kv t "req").bind optInt with
+      | none => (s, "bad-op")
+      | some req =>
       match (kv t "ht").bind String.toInt?, (kv t "mb").bind String.toInt?, (kv t "mg").bind String.toInt?,
             (kv t "iota").bind String.toInt?, (kv t "eab").bind String.toInt?, (kv t "ead").bind String.toInt?,
             (kv t "emb").bind String.toInt?, (kv t "pkt").bind String.toNat?, kv t "pktok" with
       | some ht, some mb, some mg, some iot, some eab, some ead, some emb, some pkt, some pktok =>
-        let (v, lc') := verifyParams Hs s.lc ht
+        let (v, lc') := verifyParams Hs s.lc req ht
           { maxBytes := mb, maxGas := mg, timeIotaMs := iot, evMaxAgeBlocks := eab, evMaxAgeDuration := ead,
             evMaxBytes := emb, pubKeyTypes := pkt, pubKeyTypesKnown := pktok = "1" }
         ({ s with lc := lc' }, showVerdict v)
